@@ -513,6 +513,54 @@ def fam_refcount(rng):
     return lines
 
 
+def fam_alloc_fail_pool(rng):
+    """C19 with a NON-EMPTY waiter pool: threads block on a mutex (each gets a waiter struct) and END (their key
+    destructor hands the struct to the free pool: exec key threadexit=1), then a constructor's allocation fails
+    (failctor=k counts only the constructors' allocations, whatever the pool and nsync_wait_n allocate in between),
+    and afterwards other threads block again and take structs from the pool: the failed constructor must have left
+    the library's own global state alone ('existing objects remain usable')."""
+    lines = ["sem counting", "objs mu=2 cv=0 var=1 once=0 sem=0", "var x0 0 mu0"]
+    nb = rng.choice([2, 3])
+    # phase 1: contention on mu0 among short-lived threads
+    lines.append("fiber lock mu0 ; " + " ; ".join("after_blocked %d" % f for f in range(1, 1 + nb)) + " ; inc x0 ; unlock mu0")
+    for _ in range(nb):
+        lines.append("fiber lock mu0 ; inc x0 ; unlock mu0")
+    # phase 2: constructors (one of their allocations fails), the survivors are used
+    ops = ["yield"] * rng.randrange(0, 3) + ["after_done %d" % f for f in range(0, 1 + nb)]
+    n = rng.choice([2, 3])
+    for i in range(n):
+        ops.append("note_new n%d %s %s" % (i, "-" if i == 0 or rng.random() < 0.4 else "n%d" % rng.randrange(i), rng.choice(["inf", "p5000"])))
+    ops.append("ctr_new k0 %d" % rng.choice([1, 2]))
+    ops += ["is_notified n0", "ctr_value k0"]
+    # phase 3: this thread and a late one contend on mu1: they need waiter structs again
+    ops += ["lock mu1", "after_blocked %d" % (2 + nb), "unlock mu1"]
+    lines.append("fiber " + " ; ".join(ops))
+    lines.append("fiber " + " ; ".join(["after_done %d" % f for f in range(0, 1 + nb)] + ["yield"] * rng.randrange(1, 4) + ["lock mu1", "unlock mu1"]))
+    lines.append("#failctor %d" % rng.randrange(1, n + 2))
+    lines.append("#threadexit")
+    return lines
+
+
+def fam_timed_readers(rng):
+    """C05 / C15: 'once the deadline has passed the call returns as soon as the mutex can be re-acquired' against
+    READERS that hand the read lock over without a gap: a timed-out nsync_mu_wait caller (reader or writer mode,
+    condition false for ever) must raise MU_WRITER_WAITING so that new readers queue behind it; oracle
+    timed-starved counts the nsync_mu_rlock calls that begin after the deadline and are admitted before the caller
+    has the mutex back."""
+    nr = rng.choice([3, 4])
+    lines = ["sem %s" % rng.choice(["counting", "binary"]), "objs mu=1 cv=0 var=1", "var x0 0 mu0", "cond c0 eq x0 1"]
+    rd = rng.random() < 0.5
+    lines.append("fiber " + " ; ".join(["rlock mu0" if rd else "lock mu0", "muwait mu0 c0 %s" % rng.choice(["p200", "p2000"]), "runlock mu0" if rd else "unlock mu0"]))
+    # one reader keeps the mutex read-held for a long time (so the timed-out caller cannot get it back yet) …
+    lines.append("fiber after_blocked 0 ; rlock mu0 ; advance 5000 ; " + " ; ".join(["yield"] * rng.choice([500, 700])) + " ; runlock mu0")   # the deadline passes while this reader holds
+    # … while new readers keep arriving: once the caller has timed out they must queue behind its MU_WRITER_WAITING
+    for i in range(nr):
+        n = rng.choice([30, 40])
+        lines.append("fiber " + " ; ".join(["after_blocked 0"] + ["yield"] * (2 * i) + ["rlock mu0 ; yield ; runlock mu0"] * n))
+    lines.append("#tick0")
+    return lines
+
+
 def fam_refcount_mw(rng):
     """C13 (mutex half) with conditional critical sections: the reference-count pattern where a holder's last use of
     the mutex is an nsync_mu_wait that TIMES OUT (the call returns holding the lock and leaves MU_WAITING / MU_CONDITION
@@ -704,7 +752,7 @@ try:
 except Exception:
     _gm = None
 
-FAMILIES = {"alloc_fail": fam_alloc_fail, "note": _gn.fam_note, "note_f4": _gn.fam_note_f4, "note_f4b": _gn.fam_note_f4b, "note_wc": _gn.fam_note_wc, "note_f7": _gn.fam_note_f7, "refcount": fam_refcount, "refcount_mw": fam_refcount_mw, "starve": fam_starve, "cv_rsignal": fam_cv_rsignal, "ctr": fam_ctr, "once": fam_once, "futex": fam_futex,"core": fam_core, "cv": fam_cv, "cv_raw": fam_cv_raw, "muwait": fam_muwait, "debug": fam_debug,
+FAMILIES = {"alloc_fail": fam_alloc_fail, "note": _gn.fam_note, "note_f4": _gn.fam_note_f4, "note_f4b": _gn.fam_note_f4b, "note_wc": _gn.fam_note_wc, "note_f7": _gn.fam_note_f7, "refcount": fam_refcount, "refcount_mw": fam_refcount_mw, "timed_readers": fam_timed_readers, "alloc_fail_pool": fam_alloc_fail_pool, "starve": fam_starve, "cv_rsignal": fam_cv_rsignal, "ctr": fam_ctr, "once": fam_once, "futex": fam_futex,"core": fam_core, "cv": fam_cv, "cv_raw": fam_cv_raw, "muwait": fam_muwait, "debug": fam_debug,
             "waitn_cv": fam_waitn_cv, "waitn_rep": fam_waitn_rep, "waitn_atomic": fam_waitn_atomic, "starve_cv": fam_starve_cv, "late_looker": fam_late_looker, "debug_cond": fam_debug_cond, "nw_release": fam_nw_release, "longwait_timeout": fam_longwait_timeout, "starve_mix": fam_starve_mix, "muc_cv": fam_muc_cv, "once_nested": fam_once_nested, "ctr_big": fam_ctr_big, "cancel_children": fam_cancel_children, "cv_rwr": fam_cv_rwr, "muc_eqmix": fam_muc_eqmix, "timed_contended": fam_timed_contended, "waitn_mon": fam_waitn_mon, "cancel_only": fam_cancel_only, "mixed": fam_mixed}
 
 
@@ -744,6 +792,13 @@ def make_batch(path, seed, plan):
                 if fmf:
                     lines = [l for l in lines if not l.startswith("#failmallocfrom ")]
                     ex = [e + " failmallocfrom=%s" % fmf[0].split()[1] for e in ex]
+                fc = [l for l in lines if l.startswith("#failctor ")]
+                if fc:
+                    lines = [l for l in lines if not l.startswith("#failctor ")]
+                    ex = [e + " failctor=%s" % fc[0].split()[1] for e in ex]
+                if "#threadexit" in lines:
+                    lines = [l for l in lines if l != "#threadexit"]
+                    ex = [e + " threadexit=1" for e in ex]
                 fm = [l for l in lines if l.startswith("#failmalloc ")]
                 if fm:
                     lines = [l for l in lines if not l.startswith("#failmalloc ")]
